@@ -321,7 +321,8 @@ def _exclude_tree_case(entry, pat, newjob, recursive, aslist):
     with SL.Scratch() as sc:
         src, dst = SL.build(sc.root, 1 if newjob else 3, 0, 0, 0, 0, 0)
         sj = src.open_job(SL.SPS[0])
-        for rel in ("keep.txt", "secret.log", "sub/secret.log", "sub/keep2.txt", "sub/deeper/secret.log", "sub/deeper/keep3.txt"):
+        for rel in ("keep.txt", "secret.log", "sub/secret.log", "sub/keep2.txt", "sub/deeper/secret.log", "sub/deeper/keep3.txt",
+                    "embedded/signac_statepoint.json", "embedded/signac_job_document.json"):      # a project embedded in the job: data files named like signac's own
             SL.put(sj.fn(rel), b"DATA:" + rel.encode(), SL.T_MID)
         sj.document["k"] = 1
         src, dst = signac.get_project(src.path, search=False), signac.get_project(dst.path, search=False)
